@@ -66,28 +66,21 @@ def _exp_header(lh, rh, prefix):
     return tuple(out)
 
 
-def join_op(sym, op, NL, NR, dom, compound=False, ragged=False, spelling='key', prefix=False,
-            miss='none', bs=None):
-    missing = MISS[miss]
-    L, R, lh, rh, kw = _build(sym, NL, NR, dom, compound, ragged, spelling, prefix, missing)
-    if op in ('leftjoin', 'rightjoin', 'outerjoin', 'lookupjoin'):
-        kw['missing'] = missing
-    lkeys = [_key(r, compound, missing if op != 'join' else None) for r in L]
-    rkeys = [_key(r, compound, missing if op != 'join' else None) for r in R]
+def verify_join(out, kind, L, R, lh, rh, lkeys, rkeys, compound, prefix, missing, order='key'):
+    """Check ``out`` (list of tuples, header first) against the relational
+    definition.  kind in join/leftjoin/rightjoin/outerjoin/lookupjoin.
+    order: 'key' (ascending key order), 'left' / 'right' (order of the streamed
+    side, partners in the other side's table order)."""
     W = len(lh)
-    leftouter = op in ('leftjoin', 'outerjoin', 'lookupjoin')
-    rightouter = op in ('rightjoin', 'outerjoin')
-    with pickle_stub(), private_tempdir() as td:
-        view = getattr(petl, op)([lh] + L, [rh] + R, buffersize=bs, tempdir=td, **kw)
-        out = [tuple(r) for r in view]
-        del view
+    leftouter = kind in ('leftjoin', 'outerjoin', 'lookupjoin')
+    rightouter = kind in ('rightjoin', 'outerjoin')
     check(len(out) >= 1 and out[0] == _exp_header(lh, rh, prefix), 'header', out[:1])
     data = out[1:]
     ltags = dict((r[0], i) for i, r in enumerate(L))
     rtags = dict((r[0], j) for j, r in enumerate(R))
     # expected pairs, decided pair by pair
     match = [[_keys_eq(lkeys[i], rkeys[j], compound) for j in range(len(R))] for i in range(len(L))]
-    if op == 'lookupjoin':
+    if kind == 'lookupjoin':
         # first partner in key-sorted (stable) order == first in input order
         exp_pairs = set()
         for i in range(len(L)):
@@ -101,7 +94,7 @@ def join_op(sym, op, NL, NR, dom, compound=False, ragged=False, spelling='key', 
     r_unmatched = set(j for j in range(len(R)) if not any(match[i][j] for i in range(len(L)))) \
         if rightouter else set()
     seen_pairs, seen_l, seen_r = [], [], []
-    outkeys = []
+    outkeys, outpos = [], []
     for r in data:
         check(len(r) == W + 1, 'output row length', r)
         a, b = r[0], r[W]
@@ -112,6 +105,7 @@ def join_op(sym, op, NL, NR, dom, compound=False, ragged=False, spelling='key', 
             check((i, j) not in seen_pairs, 'pair emitted twice', r)
             seen_pairs.append((i, j))
             k = lkeys[i]
+            outpos.append((i, j))
         elif a in ltags:
             i = ltags[a]
             check(b is missing or b == missing, 'right part not padded with missing', r)
@@ -119,6 +113,7 @@ def join_op(sym, op, NL, NR, dom, compound=False, ragged=False, spelling='key', 
             check(i not in seen_l, 'unmatched left row emitted twice', r)
             seen_l.append(i)
             k = lkeys[i]
+            outpos.append((i, -1))
         elif b in rtags:
             j = rtags[b]
             check(a is missing or a == missing, 'left part not padded with missing', r)
@@ -126,6 +121,7 @@ def join_op(sym, op, NL, NR, dom, compound=False, ragged=False, spelling='key', 
             check(j not in seen_r, 'unmatched right row emitted twice', r)
             seen_r.append(j)
             k = rkeys[j]
+            outpos.append((-1, j))
         else:
             check(False, 'row made of neither input', r)
         kt = k if compound else (k,)
@@ -135,9 +131,31 @@ def join_op(sym, op, NL, NR, dom, compound=False, ragged=False, spelling='key', 
     check(len(seen_pairs) == len(exp_pairs), 'missing matched pair(s)', sorted(exp_pairs), sorted(seen_pairs))
     check(len(seen_l) == len(l_unmatched), 'missing unmatched left row(s)', sorted(l_unmatched), seen_l)
     check(len(seen_r) == len(r_unmatched), 'missing unmatched right row(s)', sorted(r_unmatched), seen_r)
-    for x in range(len(outkeys) - 1):
-        check(not ref_lt(outkeys[x + 1], outkeys[x]), 'output not grouped in ascending key order',
-              outkeys[x], outkeys[x + 1])
+    if order == 'key':
+        for x in range(len(outkeys) - 1):
+            check(not ref_lt(outkeys[x + 1], outkeys[x]), 'output not grouped in ascending key order',
+                  outkeys[x], outkeys[x + 1])
+    elif order == 'left':
+        check(outpos == sorted(outpos), 'rows not in the order of the streamed (left) side', outpos)
+    elif order == 'right':
+        sw = [(j, i) for i, j in outpos]
+        check(sw == sorted(sw), 'rows not in the order of the streamed (right) side', outpos)
+
+
+def join_op(sym, op, NL, NR, dom, compound=False, ragged=False, spelling='key', prefix=False,
+            miss='none', bs=None):
+    missing = MISS[miss]
+    L, R, lh, rh, kw = _build(sym, NL, NR, dom, compound, ragged, spelling, prefix, missing)
+    if op in ('leftjoin', 'rightjoin', 'outerjoin', 'lookupjoin'):
+        kw['missing'] = missing
+    pad = missing if op != 'join' else None
+    lkeys = [_key(r, compound, pad) for r in L]
+    rkeys = [_key(r, compound, pad) for r in R]
+    with pickle_stub(), private_tempdir() as td:
+        view = getattr(petl, op)([lh] + L, [rh] + R, buffersize=bs, tempdir=td, **kw)
+        out = [tuple(r) for r in view]
+        del view
+    verify_join(out, op, L, R, lh, rh, lkeys, rkeys, compound, prefix, missing, order='key')
 
 
 def antijoin_op(sym, NL, NR, dom, compound=False, spelling='key', bs=None):
